@@ -25,7 +25,8 @@ T_NEGRI = "C12.negative_reinvest"
 CLASSES = {1: "pool-below-sum-of-active", 2: "pool-differs-from-sum-of-active-without-donation",
            3: "beginblock-credit-differs-from-amount-due-at-this-height", 4: "negative-reward-balance",
            5: "beginblock-pays-negative-matured-undelegation", 6: "beginblock-pays-negative-matured-reward-withdrawal",
-           7: "negative-delegator-balance", 8: "negative-active-delegation"}
+           7: "negative-delegator-balance", 8: "negative-active-delegation",
+           9: "reward-accrual-not-proportional-to-committed-active-delegations"}
 
 
 def evaluate(ctx, vh, args, tag="c12"):
@@ -93,10 +94,6 @@ def judge(ctx, cases, mm, mon, tr):
     for (ci, step) in mm:
         negund, negrw, negri = tr[ci]
         mon_here = [m for m in mon if m[0] == ci]
-        # inside a known trigger region the implementation may also satisfy the property (a repaired tree):
-        # the defective model then differs, the monitor is clean
-        if (negund or negrw or negri) and not any(m[2] in (4, 5, 6, 7, 8) for m in mon_here):
-            continue
         bad_mm.append((ci, step))
     if bad_mm and not stats["violating_cases"]:
         ci, step = bad_mm[0]
@@ -147,6 +144,10 @@ def run(ctx):
         "kind_histogram": rep["kind_histogram"], "generator_class_histogram": rep["generator_class_histogram"],
         "outcome_histogram": rep["outcome_histogram"], "genesis_histogram": rep["genesis_histogram"],
         "blocks_with_two_ops_by_one_delegator": rep["blocks_with_two_ops_by_one_delegator"],
+        "undelegations_merged_into_a_pending_key_written_in_the_same_block": rep["undelegations_merged_into_a_pending_key_written_in_the_same_block"],
+        "accruals_to_an_active_key_first_written_in_the_previous_block": rep["accruals_to_an_active_key_first_written_in_the_previous_block"],
+        "blocks_with_accrual_to_two_or_more_delegators": rep["blocks_with_accrual_to_two_or_more_delegators"],
+        "accruals_right_after_a_reinvestment_by_the_same_delegator": rep["accruals_right_after_a_reinvestment_by_the_same_delegator"],
         "alien_keys": rep["alien_keys"],
         "model_mismatches": len(mm), "monitor_failures": len(mon),
         "cases_in_negative_undelegate_trigger_region": sum(1 for t in tr if t[0]),
